@@ -7,7 +7,7 @@ DEFECTS = ["neg_code", "rep_name", "rep_code", "term_error_name", "term_S", "ter
            "rhs_S_first", "rhs_S_later", "rhs_eof_first", "rhs_eof_later", "lhs_eof_later", "no_rules", "term_lhs",
            "error_lhs", "two_transl_no_anode", "neg_cost", "index_eq_len", "index_big", "index_nil_minus_1",
            "rep_index", "self_loop", "nullable_sibling_loop", "two_step_loop", "unproductive", "unproductive_start",
-           "unreachable", "undefined_nonterm"]
+           "unreachable", "undefined_nonterm", "deep_nullable_loop", "deep_nullable_loop"]
 
 
 def clone(g):
@@ -98,6 +98,20 @@ def inject(rng, g0, what):
         a = rng.choice(nts)
         newrule("Zn", [], pos=len(rules))
         newrule(a, ["Zn", a, "Zn"])
+    elif what == "deep_nullable_loop":
+        # A : Z1 A ... where Z1 is nullable only through a chain Z1 -> Z2 -> ... -> Zk -> empty that is written
+        # top-down (used before defined), every level also having a terminal alternative
+        a = rng.choice(nts)
+        k = rng.randrange(2, 7)
+        t = rng.choice(tn) if tn else None
+        order = list(range(1, k + 1))
+        if rng.random() < 0.3:
+            rng.shuffle(order)
+        newrule(a, ["Zd1", a] if rng.random() < 0.5 else ["Zd1", a, "Zd%d" % k], pos=rng.randrange(len(rules) + 1))
+        for i in order:
+            if t is not None:
+                newrule("Zd%d" % i, [t])
+            newrule("Zd%d" % i, ["Zd%d" % (i + 1)] if i < k else [])
     elif what == "two_step_loop":
         a = rng.choice(nts)
         newrule(a, ["Zl"])
@@ -135,7 +149,27 @@ def _worker(args):
     pool = gen.pool()
     for cid in range(n_cases):
         k = rng.random()
-        if k < 0.25:
+        if k < 0.08:
+            # well-formed grammars whose nullable / productive / reachable flags need many passes when the rules
+            # are written top-down
+            depth = rng.randrange(3, 9)
+            names = ["D%d" % i for i in range(depth)]
+            rs = [Rule("S", [names[0], "a"], "top", 1, [0])]
+            kind = rng.choice(["nullable", "productive", "mixed"])
+            order = list(range(depth))
+            if rng.random() < 0.3:
+                rng.shuffle(order)
+            for i in order:
+                nxt = names[i + 1] if i + 1 < depth else None
+                if kind == "nullable":
+                    rs.append(Rule(names[i], [nxt] if nxt else [], "n%d" % i, 0, [0] if nxt else []))
+                elif kind == "productive":
+                    rs.append(Rule(names[i], [nxt, "b"] if nxt else ["b"], None, 0, [0]))
+                else:
+                    rs.append(Rule(names[i], ([nxt] if nxt else []) + (["b"] if i % 2 else []), None, 0, None))
+            g = Grammar([("a", 97), ("b", 98)], rs)
+            what = "deep_chain_" + kind
+        elif k < 0.25:
             g = gen.random_grammar(rng, error_p=0.05)
             what = "raw_random"
         elif k < 0.45:
